@@ -454,25 +454,6 @@ def search(before, after, rnd, tries=40):
 
 
 # ------------------------------------------------------------------ observer
-def expected_refusal(before, exc):
-    """CFGNormalization refuses (CompilerPanic) to split the edge of a `djmp` whose target has another predecessor: the
-    jump table would still point at the old label (defect found by this part; repaired by failing closed).  Only that
-    message on such a function is accepted."""
-    if type(exc).__name__ != "CompilerPanic" or "of a djmp has another predecessor" not in str(exc):
-        return False
-    preds = {}
-    for lab, insts in before["blocks"]:
-        if insts and insts[-1][0] in JUMPS:
-            for a in insts[-1][1]:
-                if a[0] == "lab":
-                    preds.setdefault(a[1], set()).add(lab)
-    for lab, insts in before["blocks"]:
-        if insts and insts[-1][0] == "djmp":
-            if any(len(preds.get(a[1], ())) > 1 for a in insts[-1][1] if a[0] == "lab"):
-                return True
-    return False
-
-
 class Observer:
     def __init__(self, max_insts=700):
         self.max_insts = max_insts
@@ -482,7 +463,6 @@ class Observer:
         self.too_big = 0
         self.errors = []
         self.crashes = []
-        self.refusals = 0
         self.origin = None
 
     def __enter__(self):
@@ -506,9 +486,6 @@ class Observer:
                 try:
                     r = _orig(self_, *a, **k)
                 except Exception as e:
-                    if before is not None and _nm == "CFGNormalization" and expected_refusal(before, e):
-                        obs.refusals += 1
-                        raise
                     if before is not None and len(obs.crashes) < 5:
                         obs.crashes.append({"pass": _nm, "error": f"{type(e).__name__}: {e}"[:400], "before": snap_text(before)[:6000],
                                             "origin": obs.origin})
@@ -614,19 +591,34 @@ def run_regressions(obs):
         except Exception as e:
             out.append({"replay": str(d / "branchopt_equal_targets.venom"), "level": lvl.name, "error": f"{type(e).__name__}: {e}"[:300],
                         "command": "run_passes_on(parse_venom(text), VenomOptimizationFlags(level=...))"})
-    # corpus/C14/normalization_djmp_table.venom: must be refused (it used to return a wrong value)
+    # corpus/C14/normalization_djmp_table.venom (OPEN finding cfgpass:CFGNormalization): CFGNormalization splits the edge of
+    # a djmp but the jump table keeps the old label; calldata (x=0, a=1, b=9) must return (9, 0)
+    from vyper.compiler.phases import generate_bytecode
+    from vyper.compiler.settings import set_global_settings
+    from vyper.venom import generate_assembly_experimental
+    from .evm import Chain
+    set_global_settings(Settings(evm_version="cancun"))
+    text = (d / "normalization_djmp_table.venom").read_text()
     for lvl in (OptimizationLevel.NONE, OptimizationLevel.GAS, OptimizationLevel.CODESIZE, OptimizationLevel.O3):
         obs.origin = f"regression:normalization_djmp_table.venom:{lvl.name}"
         try:
-            run_passes_on(parse_venom((d / "normalization_djmp_table.venom").read_text()), VenomOptimizationFlags(level=lvl))
-            out.append({"replay": str(d / "normalization_djmp_table.venom"), "level": lvl.name,
-                        "error": "compiled: CFGNormalization split a djmp edge although the jump table keeps the old label "
-                                 "(wrong value at run time: corpus/C14/normalization_djmp_table.py)",
-                        "command": "PYTHONPATH=/repo:/verif/tools /venv/bin/python corpus/C14/normalization_djmp_table.py"})
+            c2 = parse_venom(text)
+            run_passes_on(c2, VenomOptimizationFlags(level=lvl))
+            code, _ = generate_bytecode(generate_assembly_experimental(c2, OptimizationLevel.O2))
+            ch = Chain("cancun")
+            addr = ch.set_code(None, code)
+            r = ch.call(addr, (0).to_bytes(32, "big") + (1).to_bytes(32, "big") + (9).to_bytes(32, "big"))
+            got = (int.from_bytes(r.out[:32], "big"), int.from_bytes(r.out[32:64], "big")) if r.ok else None
+            if got != (9, 0):
+                out.append({"replay": str(d / "normalization_djmp_table.venom"), "level": lvl.name, "calldata_words": [0, 1, 9],
+                            "returned": got, "expected": (9, 0),
+                            "error": "CFGNormalization splits a djmp edge, the jump table keeps the old label: wrong value at run time",
+                            "command": "PYTHONPATH=/repo:/verif/tools /venv/bin/python corpus/C14/normalization_djmp_table.py"})
+                break
         except Exception as e:
-            if "of a djmp has another predecessor" not in str(e):
+            if "of a djmp has another predecessor" not in str(e):     # a refusal of exactly this shape would be a repair
                 out.append({"replay": str(d / "normalization_djmp_table.venom"), "level": lvl.name, "error": f"{type(e).__name__}: {e}"[:300],
-                            "command": "run_passes_on(parse_venom(text), VenomOptimizationFlags(level=...))"})
+                            "command": "run_passes_on(parse_venom(text), VenomOptimizationFlags(level=...))", "other": True})
     obs.origin = None
     return out
 
@@ -769,9 +761,10 @@ def part_cfg_passes(ctx):
         ctx.violation("failing-input", "the back end does not evaluate the phis of a block in parallel (or fails) on a swap carried around a loop",
                       dict(pb, call="run_passes_on + generate_assembly_experimental + generate_bytecode, pyrevm, calldata = n,5,9"),
                       key="backend-phi-parallel")
-    for rg in regress[:2]:
+    for rg in regress[:3]:
         ctx.violation("failing-input", "regression of a repaired defect of the venom pipeline: " + rg["error"][:120], rg,
-                      key="cfgpass:CFGNormalization" if "normalization_djmp_table" in rg["replay"] else "cfgpass-crash:BranchOptimizationPass")
+                      key=("cfgpass:CFGNormalization" if "normalization_djmp_table" in rg["replay"] and not rg.get("other")
+                           else "cfgpass-crash:BranchOptimizationPass" if "branchopt" in rg["replay"] else "cfgpass-regression"))
     for cr in ([] if regress else obs.crashes[:2]):
         ctx.violation("failing-input", f"{cr['pass']} raises {cr['error'][:120]} on a well-formed function",
                       {"pass": cr["pass"], "error": cr["error"], "function_before": cr["before"], "origin": cr["origin"],
@@ -787,7 +780,7 @@ def part_cfg_passes(ctx):
     items = fam_items + cor_items
     stats = {"programs": len(progs), "family_pass_runs": nfam, "compile_failures": nfail, "compile_seconds": round(t_compile, 1),
              "invocations": dict(obs.calls), "unchanged": dict(obs.unchanged), "too_big_skipped": obs.too_big,
-             "distinct_changing_invocations": len(obs.items), "checked": 0, "expected_refusals_djmp_split": obs.refusals,
+             "distinct_changing_invocations": len(obs.items), "checked": 0,
              "accepted": {p: 0 for p in PASSES}, "rejected": {p: 0 for p in PASSES}, "unsupported": {}}
     todo = []
     for it in items:
